@@ -250,6 +250,12 @@ func linkModel(r *core.Run) (inputs []linkInput, scheds map[string][]linkSchedul
 		}
 		r.Logf("TLC LinkPar/%s: %d generated, %d distinct, %d cases", j.c.Name, res.Generated, res.Distinct, res.Cases)
 	})
+	// the join rule of the inner pools (per chunk / part range / file / entry point): slots by index
+	if res := tlcrun.MustHold(r, tlcrun.Options{Module: "SlotJoin", Config: "SlotJoin.cfg", Workers: 1, TimeoutSec: 600}); res != nil && r.Thorough() {
+		if neg, err := tlcrun.Run(r, tlcrun.Options{Module: "SlotJoin", Config: "SlotJoin.neg.cfg", Workers: 1, TimeoutSec: 600}); err == nil && neg.Violated != "JoinByIndex" {
+			r.Infra("SlotJoin negative control: a join in completion order must violate JoinByIndex, TLC reports %q", neg.Violated)
+		}
+	}
 	sort.Slice(inputs, func(i, j int) bool { return inputs[i].key() < inputs[j].key() })
 	for k := range scheds {
 		s := scheds[k]
